@@ -274,6 +274,8 @@ class _Emitter:
             self.tok(self.int_text(abs(e.n)), "IntLiteral", str(abs(e.n)))
         elif isinstance(e, A.Str):
             self.tok('"' + self.str_text(e.s) + '"', "StrLiteral", e.s)
+        elif isinstance(e, A.StrLit):
+            self.tok('"' + e.src + '"', "StrLiteral", e.s)
         elif isinstance(e, A.IStr):
             text, decoded, slots = self.istr(e)
             self.istr_idx[id(e)] = self.tok(text, "InterpStrLiteral", (decoded, slots))
@@ -394,6 +396,9 @@ class _Emitter:
             if isinstance(p, str):
                 text.append(self.str_text(p, interp=True))
                 decoded.append(p)
+            elif isinstance(p, tuple):
+                text.append(p[0])
+                decoded.append(p[1])
             else:
                 if isinstance(p, A.RawSlot):
                     slot_text = p.text
